@@ -55,7 +55,7 @@ def decoders(facts):
     return out
 
 
-def classify(body):
+def classify(body, facts=None):
     """('noop'|'delegation'|'primary', info)"""
     calls = [(bb, t) for bb, t in body.calls() if not body.is_cleanup(bb)]
     uses_params = False
@@ -89,12 +89,98 @@ def classify(body):
             plumbing.append((bb, t, c))
         else:
             other.append((bb, t, c))
+    if not pcalls and len(other) == 1 and not plumbing and facts is not None:
+        # delegation through a crate-local combinator: `delegate(T::parse_x, &mut state.f, line)` where the
+        # combinator only calls its function argument on its two other arguments and plumbs the result
+        b1, t1, c1 = other[0]
+        comb = combinator_shape(facts, c1)
+        if comb is not None and len(t1['args']) == 3:
+            fi, si, li = comb
+            fl = op_local(t1['args'][fi])
+            fnc = None
+            for bi2, si2, kind2, st2 in body.defs.get(fl, []) if fl is not None else []:
+                if kind2 == 'assign' and st2['rv']['k'] == 'cast' and 'ReifyFnPointer' in st2['rv'].get('ck', ''):
+                    o = st2['rv']['op']
+                    if o['k'] == 'const' and 'fn' in o:
+                        fnc = o['fn']
+            if fnc and fnc.get('trait') == TRAIT and fnc['name'].startswith('parse_'):
+                t_syn = {'args': [t1['args'][si], t1['args'][li]], 'dest': t1['dest'], 'sp': t1['sp']}
+                info = {'call_bb': b1, 'callee_name': fnc['name'], 'callee_full': fnc['full'], 't': t_syn,
+                        'plumbing': [], 'via_combinator': c1['path']}
+                return ('delegation', info)
     if len(pcalls) == 1 and not other:
         b1, t1, c1 = pcalls[0]
         info = {'call_bb': b1, 'callee_name': c1['name'], 'callee_full': c1['full'], 't': t1,
                 'plumbing': [(t, c) for _b, t, c in plumbing]}
         return ('delegation', info)
     return ('primary', {})
+
+
+def combinator_shape(facts, c):
+    """c is a crate-local fn(f, state, line): its body is exactly one indirect call of its function
+    parameter on its two other parameters plus result plumbing, and it returns that result.
+    Returns the argument positions (fn, state, line) or None."""
+    if not c or not c.get('local') or c['path'] not in facts.bodies:
+        return None
+    b = facts.bodies[c['path']]
+    if b.argc != 3:
+        return None
+    calls = [(bb, t) for bb, t in b.calls() if not b.is_cleanup(bb)]
+    indirect = [(bb, t) for bb, t in calls if callee_of(t) is None]
+    rest = [(bb, t) for bb, t in calls if callee_of(t) is not None]
+    if len(indirect) != 1:
+        return None
+    for _bb, t in rest:
+        cc = callee_of(t)
+        if not (cc['path'] in RESULT_PLUMBING or (cc['name'] in ('from', 'into') and cc['path'].startswith('std::convert::'))):
+            return None
+
+    def param_of(l, depth=0):
+        if l is None or depth > 6:
+            return None
+        if 1 <= l <= b.argc:
+            return l
+        ds = b.defs.get(l, [])
+        if len(ds) != 1 or ds[0][2] != 'assign':
+            return None
+        rv = ds[0][3]['rv']
+        if rv['k'] in ('use', 'cast'):
+            pl = op_place(rv['op'])
+            return param_of(pl['l'], depth + 1) if pl is not None and all(e['k'] == 'deref' for e in pl['p']) else None
+        if rv['k'] == 'ref':
+            pl = rv['pl']
+            return param_of(pl['l'], depth + 1) if all(e['k'] == 'deref' for e in pl['p']) else None
+        return None
+    _bb, t = indirect[0]
+    fpl = op_place(t['func']) if isinstance(t.get('func'), dict) else None
+    fpar = param_of(fpl['l']) if fpl is not None else None
+    if fpar is None or len(t['args']) != 2:
+        return None
+    a0, a1 = param_of(op_local(t['args'][0])), param_of(op_local(t['args'][1]))
+    if a0 is None or a1 is None or len({fpar, a0, a1}) != 3:
+        return None
+    # no store through the state reference inside the combinator
+    for blk in b.blocks:
+        if blk.get('cleanup'):
+            continue
+        for st in blk['st']:
+            if st['k'] == 'assign' and any(e['k'] == 'deref' for e in st['pl']['p']):
+                return None
+    # the result is what is returned
+    res_l = t['dest']['l']
+    for bi, si, kind, st in b.defs.get(0, []):
+        if kind == 'assign':
+            rv = st['rv']
+            if rv['k'] == 'aggr' and rv.get('variant') == 'Ok':
+                continue
+            pl = op_place(rv['op']) if rv['k'] in ('use', 'cast') else None
+            if pl is None or not _flows_from(b, pl['l'], res_l):
+                return None
+        else:
+            c0 = callee_of(st)
+            if not (c0 and c0['path'] in RESULT_PLUMBING and st['args'] and _flows_from(b, op_local(st['args'][0]), res_l)):
+                return None
+    return (fpar - 1, a0 - 1, a1 - 1)
 
 
 RESULT_PLUMBING = {'std::result::Result::<T, E>::map_err', 'std::ops::Try::branch', 'std::ops::FromResidual::from_residual'}
@@ -224,11 +310,16 @@ def check_delegation(body, info, out, decs_by_ty, sec):
                 ok = False
                 why.append('the return value is not the delegate result')
         else:
+            if info.get('via_combinator') and st.get('dest', {}).get('l') == res_l and res_l == 0:
+                continue        # the combinator's result is returned as it is
             c0 = callee_of(st)
             if not (c0 and c0['path'] in RESULT_PLUMBING and _flows_from(body, op_local(st['args'][0]) if st['args'] else None, res_l)):
                 ok = False
                 why.append('the return value is not derived from the delegate result')
     # the Ok(()) return must sit on the success edge of the delegate result, i.e. after a `branch`
+    if info.get('via_combinator') and res_l != 0:
+        # result stored first: must flow into _0
+        pass
     has_ok_literal = any(kind == 'assign' and st['rv']['k'] == 'aggr' and st['rv'].get('variant') == 'Ok'
                          for bi, si, kind, st in body.defs.get(0, []))
     tested = any(pc['name'] == 'branch' for _pt, pc in info['plumbing'])
@@ -308,7 +399,7 @@ def run(facts, out):
                 out.add('DG-D1', d.ty, 'method:parse_' + sec, loc_of(d.impl['sp']), False,
                         'section method missing', ordinal=False)
                 continue
-            cls[(d.ty, sec)] = (classify(body), body)
+            cls[(d.ty, sec)] = (classify(body, facts), body)
     n_prim = sum(1 for (c, _b) in cls.values() if c[0] == 'primary')
     n_del = sum(1 for (c, _b) in cls.values() if c[0] == 'delegation')
     n_noop = sum(1 for (c, _b) in cls.values() if c[0] == 'noop')
@@ -432,6 +523,7 @@ def run(facts, out):
     check_create(facts, out, by_ty)
     check_conversions(facts, out, by_ty)
     check_subvalue_mutation(facts, out, by_ty)
+    check_substate_bypass(facts, out, by_ty)
     # ---- D7
     st = facts.items['statics']
     for s in st:
@@ -788,6 +880,36 @@ def _check_sub_value(init, pname, state_of, decoder_of_state, kind, fname, root,
     if fc is not None and fc[0] == pname:
         return True, ''
     return False, 'field `%s`: source `%s` is not derived from the parameter' % (fname, root)
+
+
+def check_substate_bypass(facts, out, by_ty):
+    """D6d: an aggregating conversion turns the state of a delegated section into its value only
+    through that section's own `From<State>` conversion; it does not reach *into* a foreign sub-state
+    (`state.difficulty.difficulty`), which would bypass whatever that conversion does."""
+    state_of = {d.ty: d.state for d in by_ty.values()}
+    nonident = {st for ty, st in state_of.items() if st != ty}       # states with a real conversion
+    n = 0
+    for ty, d in sorted(by_ty.items()):
+        fn = '<%s as std::convert::From<%s>>::from' % (ty, d.state)
+        hfn = facts.hir.get(fn)
+        if hfn is None or ty == d.state:
+            continue
+        n += 1
+        bad = []
+
+        def visit(x):
+            if x.get('k') == 'field' and isinstance(x.get('e'), dict):
+                inner_ty = (x['e'].get('ty') or '').lstrip('&').replace('mut ', '')
+                if inner_ty in nonident and inner_ty != d.state:
+                    bad.append((inner_ty, x.get('n'), x.get('ln')))
+        hir_walk(hfn['body'], visit)
+        b = facts.body(fn)
+        ok = not bad
+        out.add('DG-D6', fn, 'sub-states-converted-not-opened', '%s:%d' % (b.file if b else 'src', bad[0][2] if bad and bad[0][2] else (b.line if b else 0)),
+                ok, '' if ok else ('the conversion reads field `%s` of the sub-state `%s` directly instead of converting the '
+                                   'sub-state with its own `From` impl: what that conversion does is skipped for this decoder only'
+                                   % (bad[0][1], bad[0][0])), ordinal=False)
+    out.anchor('DG', 'aggregating conversions (sub-state bypass)', n >= 3, str(n))
 
 
 def check_subvalue_mutation(facts, out, by_ty):
